@@ -492,6 +492,80 @@ func pairedRestore(p *core.Prog, fns []*ssa.Function, fa *fieldAccess, reach map
 // hasPairedDefer: after store st (x.f = v) in the same block a Defer registers a
 // closure that stores into the same field the inverse (x.f-1 for x.f+1) or a reset value.
 func hasPairedDefer(st *ssa.Store, T *types.Named, f string) (string, bool) {
+	if why, ok := hasPairedDeferOnly(st, T, f); ok {
+		return why, true
+	}
+	if restoredOnEveryExit(st, f) {
+		return "explicit store of a reset value on every path from the change to a return (not panic-safe: that no panic occurs is C01's matter)", true
+	}
+	return "", false
+}
+
+// restoredOnEveryExit: every path from st to a return of its function passes a store of a reset value to the same field.
+func restoredOnEveryExit(st *ssa.Store, f string) bool {
+	sfa, ok := st.Addr.(*ssa.FieldAddr)
+	if !ok {
+		return false
+	}
+	if _, arith := st.Val.(*ssa.BinOp); arith {
+		return false // a counter step is undone by the inverse step, not by a reset
+	}
+	resets := func(in ssa.Instruction) bool {
+		cs, ok := in.(*ssa.Store)
+		if !ok || !isResetValue(cs.Val) {
+			return false
+		}
+		cfa, ok := cs.Addr.(*ssa.FieldAddr)
+		return ok && cfa.Field == sfa.Field && types.Identical(cfa.X.Type(), sfa.X.Type()) && core.FieldName(cfa.X.Type(), cfa.Field) == f
+	}
+	// rest of the store's block, then successors
+	scan := func(ins []ssa.Instruction) (reset, ret bool) {
+		for _, in := range ins {
+			if resets(in) {
+				return true, false
+			}
+			if _, ok := in.(*ssa.Return); ok {
+				return false, true
+			}
+		}
+		return false, false
+	}
+	b := st.Block()
+	idx := 0
+	for i, in := range b.Instrs {
+		if in == ssa.Instruction(st) {
+			idx = i + 1
+		}
+	}
+	if reset, ret := scan(b.Instrs[idx:]); reset {
+		return true
+	} else if ret {
+		return false
+	}
+	seen := map[*ssa.BasicBlock]bool{}
+	work := append([]*ssa.BasicBlock{}, b.Succs...)
+	reached := false
+	for len(work) > 0 {
+		x := work[len(work)-1]
+		work = work[:len(work)-1]
+		if seen[x] {
+			continue
+		}
+		seen[x] = true
+		reset, ret := scan(x.Instrs)
+		if ret {
+			return false
+		}
+		if reset {
+			reached = true
+			continue
+		}
+		work = append(work, x.Succs...)
+	}
+	return reached
+}
+
+func hasPairedDeferOnly(st *ssa.Store, T *types.Named, f string) (string, bool) {
 	b := st.Block()
 	after := false
 	for _, in := range b.Instrs {
